@@ -215,9 +215,15 @@ def offset_cfgs(prog, limit, seed):
     import random
     names = [n['id'] for n in prog['nodes'] if n.get('mode', 'coro') != 'inline']
     pairs = [(a, b) for a in names for b in names if a != b]
-    cfgs = [dict(policy=['offset', a, b, off]) for (a, b) in pairs for off in (1, 2, 3, 4, 5, 6)]
+    # back-to-back completions (offset 0) of every ordered pair first, then a seeded sample of the larger offsets
+    cfgs = [dict(policy=['offset', a, b, 0]) for (a, b) in pairs]
+    rest = [dict(policy=['offset', a, b, off]) for (a, b) in pairs for off in (1, 2, 3, 4, 5, 6)]
+    rnd = random.Random('off/%s/%d' % (prog['name'], seed))
     if len(cfgs) > limit:
-        cfgs = random.Random('off/%s/%d' % (prog['name'], seed)).sample(cfgs, limit)
+        cfgs = rnd.sample(cfgs, limit)
+    room = limit - len(cfgs)
+    if room > 0:
+        cfgs += rnd.sample(rest, min(room, len(rest)))
     return cfgs
 
 
@@ -258,13 +264,13 @@ def build_jobs(pid, tier, seed):
             cfgs += base_cfgs(seed, 4 if quick else 20, 0)
         else:
             cfgs = base_cfgs(seed, 8 if quick else 60, 20 if quick else 300)
-            cfgs += offset_cfgs(p, 36 if quick else 600, seed)
+            cfgs += offset_cfgs(p, 64 if quick else 800, seed)
         jobs.append((p['name'], p, cfgs))
     for p in random_programs(pid, tier, seed):
         if pid == 'C13':
             cfgs = cancel_cfgs(seed, 1 if quick else 3, 60, 4 if quick else 1) + base_cfgs(seed, 2, 0)
         else:
-            cfgs = base_cfgs(seed, 4 if quick else 20, 6 if quick else 60) + offset_cfgs(p, 6 if quick else 120, seed)
+            cfgs = base_cfgs(seed, 4 if quick else 20, 6 if quick else 60) + offset_cfgs(p, 24 if quick else 300, seed)
         jobs.append((p['name'], p, cfgs))
     return jobs
 
@@ -453,7 +459,7 @@ def run_c17(tier, seed):
     viol = []
     for r in results:
         for v in r['viol']:
-            cl = sorted({c for c, _ in v['clauses'] if c.split('.')[0] in ('C01', 'C02', 'C03', 'C04', 'C05')})
+            cl = sorted({c for c, _ in v['clauses'] if c.split('.')[0] in ('C01', 'C02', 'C03', 'C04', 'C05', 'C17')})
             if cl:
                 viol.append(('virtual', v['prog'], cl, v['cfg'], [j[1] for j in jobs if j[0] == v['prog']][0]))
     nvirtual = sum(r['n'] for r in results)
